@@ -390,6 +390,24 @@ def _sklearn_post_import():
                     return out[0], out[1], out[2], out[4]
                 _check_reg_targets._simkit = True
                 mod._check_reg_targets = _check_reg_targets
+        # (2) sklearn.metrics.mean_squared_error(..., squared=...) (removed in 1.6)
+        if mod is not None and not getattr(mod._mean_squared_error, "_simkit", False):
+            import inspect
+            from sklearn.metrics import mean_squared_error as mse
+            if "squared" not in inspect.signature(mse).parameters:
+                def _mean_squared_error(y_true, y_pred, sample_weight=None,
+                                        multioutput="uniform_average", squared=True):
+                    out = mse(y_true, y_pred, sample_weight=sample_weight,
+                              multioutput="raw_values")
+                    if not squared:
+                        out = np.sqrt(out)
+                    if isinstance(multioutput, str):
+                        if multioutput == "raw_values":
+                            return out
+                        return float(np.average(out))
+                    return float(np.average(out, weights=multioutput))
+                _mean_squared_error._simkit = True
+                mod._mean_squared_error = _mean_squared_error
     except Exception:  # pragma: no cover
         raise
 
